@@ -24,6 +24,7 @@ func init() {
 			"more than 6 (7) participants directly / 3 (4) through a start are not covered",
 		},
 		Parts: []Part{
+			{Name: "equal-participants", Run: c12Equal, Workers: 1, QuickS: 30, ThoroughS: 60},
 			{Name: "sort-helper", Run: c12Direct, QuickS: 60, ThoroughS: 600},
 			{Name: "call-sites", Run: c12Sites, QuickS: 90, ThoroughS: 900},
 		},
@@ -341,5 +342,81 @@ func c12Sites(c *core.Ctx) {
 		if c.S.Programs%700 == 1 {
 			c.Sample(map[string]any{"site": cs.Site, "participants": symn, "iteration_order": cs.Perm, "invocation_log": shared.Log})
 		}
+	})
+}
+
+// ---- participants that are indistinguishable by value (equal fields, shared state) are still
+// distinct participants: each appears - is invoked - exactly once
+
+type c12CountLoader struct {
+	Doc   string
+	Count *int
+}
+
+func (l *c12CountLoader) LoadConfig() ([]byte, error) {
+	*l.Count++
+	return []byte(l.Doc), nil
+}
+
+type c12CountRunner struct {
+	Nm    string
+	Count *int
+}
+
+func (r *c12CountRunner) Naming() string { return r.Nm }
+func (r *c12CountRunner) Run() error     { *r.Count++; return nil }
+
+type c12EqualCase struct {
+	Site string `json:"site"` // loaders-set loaders-add loaders-direct loaders-mixed
+	K    int    `json:"participants"`
+}
+
+func c12Equal(c *core.Ctx) {
+	gen := func(yield func(c12EqualCase) bool) {
+		for _, site := range []string{"loaders-set", "loaders-add", "loaders-direct", "loaders-mixed"} {
+			for k := 2; k <= 4; k++ {
+				if !yield(c12EqualCase{site, k}) {
+					return
+				}
+			}
+		}
+	}
+	Cases(c, gen, func(c *core.Ctx, cs c12EqualCase) {
+		count := 0
+		var ls []configure.Loader
+		for i := 0; i < cs.K; i++ {
+			ls = append(ls, &c12CountLoader{Doc: "k: 1\n", Count: &count}) // equal by value, distinct instances
+		}
+		var opts []app.SettingOption
+		switch cs.Site {
+		case "loaders-set":
+			opts = append(opts, app.SetConfigLoader(ls...))
+		case "loaders-add":
+			opts = append(opts, app.SetConfigLoader(), app.AddConfigLoader(ls...))
+		case "loaders-direct":
+			opts = append(opts, app.SetConfigLoader(), func(a *app.App) { a.Configure.AddLoaders(ls...) })
+		case "loaders-mixed":
+			opts = append(opts, app.SetConfigLoader(ls[0]))
+			for _, l := range ls[1:] {
+				opts = append(opts, app.AddConfigLoader(l))
+			}
+		}
+		o := scen.Start(scen.StartSpec{Ch: envx.Fixed("", nil), Comps: nil, Opts: opts})
+		c.S.Evaluations++
+		c.S.Programs++
+		c.S.States++
+		c.S.Transitions += int64(cs.K)
+		c.S.Nontrivial++
+		switch {
+		case !o.OK():
+			c.Outcome("equal/start-failed")
+			c.Report("C12/equal/"+core.Hash(cs), "start-failed", fmt.Sprintf("%d value-equal loaders via %s: start-up failed: %v %s", cs.K, cs.Site, scen.FirstLine(o.Err), o.Panic), cs)
+		case count != cs.K:
+			c.Outcome("equal/not-once")
+			c.Report("C12/equal/"+core.Hash(cs), "not-exactly-once", fmt.Sprintf("%d distinct loaders with equal field values registered through %s: %d LoadConfig calls were made, want one per participant", cs.K, cs.Site, count), cs)
+		default:
+			c.Outcome("equal/each-once")
+		}
+		c.Sample(map[string]any{"case": cs, "load_calls": count})
 	})
 }
